@@ -34,10 +34,11 @@ def write_replay(prop, o, run=True):
     if run:
         try:
             import contracts.replays  # registers adapters (model-specific ones first, then the area demonstrations)
-            try:
-                import contracts.replays2
-            except ImportError:
-                pass
+            for extra in ('contracts.replays2', 'contracts.replays3'):
+                try:
+                    __import__(extra)
+                except ImportError:
+                    pass
         except Exception as e:
             rec['native'] = {'error': 'adapters not loaded: %s' % e}
         for pat, f in ADAPTERS.items():
